@@ -161,6 +161,62 @@ def rule_lying_iter(ctx):
                 if from_enum and false_t and is_diverging(fn, false_t[0]):
                     found = (bi, t["otherwise"])
     if not found:
+        # (b) the same guard written on absolute indices: `index < start + count` with index counted up from start
+        from cfg import poly_of, Poly
+        fa_id = (fa[0][0], fa[0][1]["dest"]["l"])
+
+        def is_start(x):
+            x = strip_casts(x)
+            for _ in range(6):
+                if x[0] == "call" and (str(x[1]).endswith("::expect") or str(x[1]).endswith("::unwrap") or str(x[1]).endswith("try_into") or str(x[1]).endswith("try_from") or "From" in str(x[1])):
+                    x = strip_casts(x[2][0])
+                else:
+                    break
+            return x[0] == "call" and len(x) > 4 and x[4] == fa_id
+
+        def atomz(x):
+            x0 = strip_casts(x)
+            if is_start(x0):
+                return "S"
+            if x0 == amount:
+                return "A"
+            return None
+        for bi in sorted(fn.live):
+            t = fn.blocks[bi]["term"]
+            if t["k"] != "switch":
+                continue
+            e = fn.expr_of_operand(t["discr"])
+            if e[0] == "bin" and e[1] == "Lt":
+                ry = poly_of(e[3], atomz)
+                if not ry.has_opaque() and (ry - Poly.atom("S") - Poly.atom("A")).t in ({}, {(): 0}) or (not ry.has_opaque() and all(v == 0 for v in (ry - Poly.atom("S") - Poly.atom("A")).t.values())):
+                    lhs = e[2]
+                    counts_from_start = any(x[0] == "agg" and str(x[1]).endswith("RangeFrom::RangeFrom") and isinstance(x[2], dict) and is_start(x[2].get("start", ("?",))) for x in walk(lhs)) or \
+                        any(x[0] in ("bin", "checked") and x[1] == "Add" and (is_start(x[2]) or is_start(x[3])) for x in walk(lhs))
+                    from_iter = any(x[0] == "call" and str(x[1]).endswith("::next") for x in walk(lhs))
+                    false_t = [bb for v, bb in t["arms"] if v == 0]
+                    if counts_from_start and from_iter and false_t and is_diverging(fn, false_t[0]):
+                        found = (bi, t["otherwise"])
+    if not found:
+        # (c) a countdown: `remaining = count; .. remaining = remaining.checked_sub(1).expect(..)` before every write
+        for bi, t in fn.calls(lambda t: str(callee(t)).endswith("::expect") or str(callee(t)).endswith("::unwrap")):
+            inner = strip_casts(fn.expr_of_operand(t["args"][0]))
+            if not (inner[0] == "call" and str(inner[1]).endswith("checked_sub") and strip_casts(inner[2][1])[:2] == ("const", 1)):
+                continue
+            r0 = strip_casts(inner[2][0])
+            if r0[0] != "local":
+                continue
+            defs = [strip_casts(d) for _, _, d in fn.def_exprs(r0[1])]
+            init_ok = any(d == amount for d in defs)
+            back = t["dest"]["l"] == r0[1] or any(d[0] == "call" and len(d) > 4 and d[4] == (bi, t["dest"]["l"]) for d in defs)
+            others = [d for d in defs if d != amount and not (d[0] == "call" and len(d) > 4 and d[4] == (bi, t["dest"]["l"]))]
+            if init_ok and back and not others and t.get("target") is not None:
+                if all(fn.dominates(bi, wb) for wb, _, _ in sw):
+                    for wb, wt, entry in sw:
+                        ctx.ok(site(fn, wb), "slot write dominated by `remaining = remaining.checked_sub(1).expect(..)`, remaining initialised to the fetch_add amount")
+                    found = "countdown"
+    if found == "countdown":
+        pass
+    elif not found:
         ctx.violation(VEC + "extend|len-guard|1", site(fn, sw[0][0]),
                       "no `i < count` guard (count = the amount added to the index counter) on the loop index before the slot write: an ExactSizeIterator that under-reports its length writes into indices it never reserved")
     else:
